@@ -34,6 +34,8 @@ def specs(shape):
     out = []
     for m, md in enumerate(shape["pool"]):
         term = ("obj",) if md["t"] == n else ("K", md["t"])
+        if md.get("typeann") is not None:
+            term = ("type", ("K", md["typeann"]))       # annotated type[K]: makes the position "complex" for every method
         body = {"ret": f"return {m}", "next": f"return ({m}, call_next(x))",
                 "rec": f"return ({m}, recurse(FW{m})) if x is not FW{m} else {m}"}[md["kind"]]
         out.append(dict(pos=[("x", term, False)], body=body))
@@ -64,24 +66,32 @@ def make_run(W, shape, known_active=None):
 
     def run_ovld(ctx):
         def mk():
-            extra = {f"FW{m}": inst(md["fw"]) for m, md in enumerate(pool) if md["kind"] == "rec"}
+            extra = {f"FW{m}": (W.K[md["fwcls"]] if md.get("fwcls") is not None else inst(md["fw"]))
+                     for m, md in enumerate(pool) if md["kind"] == "rec"}
             hs, LOG, ns = ms.instantiate(W, extra=extra)
             return Ovld(), hs, LOG
 
         def probe(ov, LOG, c):
             a = inst(c)
+            if not hasattr(ov, "dispatch"):
+                ov.ensure_compiled()          # (a bare copy has no public function object before its first build)
             return full_outcome(lambda: ov.dispatch(a), LOG)
 
         ov, hs, LOG = mk()
+        target = ov
+        if shape.get("linked"):
+            # the changes are made on a parent that is itself never called; the calls go to a copy linked to it (linkback=True), whose
+            # method set is the parent's: it must follow every change like a function built afresh from the resulting set
+            ov = target.copy(linkback=True)
         live = []
         trace = []
         ok = True
         for i, (op, m) in enumerate(ops):
             if op == "reg":
-                ov.register(hs[m], priority=prio(m))
+                target.register(hs[m], priority=prio(m))
                 live.append(m)
             else:
-                ov.unregister(hs[m])
+                target.unregister(hs[m])
                 live.remove(m)
             last = i == len(ops) - 1
             sel = 3 if not live else (shape["probes"][i] if not last else 0)
@@ -165,6 +175,12 @@ def gen_shapes(tier, seed):
         for fw in (0, 1):
             pools.append([dict(t=mt[0], kind="rec", fw=fw), dict(t=mt[1], kind="ret"), dict(t=mt[2], kind="ret"),
                           dict(t=mt[1], kind="next", p=1)])
+    # pools whose late method is annotated type[K]: the recursive method forwards the CLASS K0
+    tpools = []
+    for mt in itertools.product(range(n + 1), repeat=2):
+        for ta in range(n):
+            tpools.append([dict(t=mt[0], kind="rec", fw=0, fwcls=0), dict(t=mt[1], kind="ret"), dict(t=n, kind="ret", p=1),
+                           dict(t=n, kind="ret", typeann=ta)])
     H4 = histories(4, 4)
     H5 = histories(4, 5)
     all_ov = len(pools) * (len(H4) + len(H5))
@@ -177,13 +193,21 @@ def gen_shapes(tier, seed):
             shapes.append(dict(n=n, api="ovld", pool=rng.choice(pools), ops=rng.choice(H4)))
         for _ in range(60):
             shapes.append(dict(n=n, api="ovld", pool=rng.choice(pools), ops=rng.choice(H5)))
+        for _ in range(80):
+            shapes.append(dict(n=n, api="ovld", pool=rng.choice(tpools), ops=rng.choice(H4)))
         for _ in range(160):
             shapes.append(dict(n=n, api="mtm", pool=rng.choice(mt_pools), ops=rng.choice(Hm)))
+        for _ in range(100):
+            shapes.append(dict(n=n, api="ovld", linked=True, pool=rng.choice(pools), ops=rng.choice(H4)))
     else:
+        for _ in range(1500):
+            shapes.append(dict(n=n, api="ovld", linked=True, pool=rng.choice(pools), ops=rng.choice(H4 + H5)))
         for _ in range(3000):
             shapes.append(dict(n=n, api="ovld", pool=rng.choice(pools), ops=rng.choice(H4)))
         for _ in range(2000):
             shapes.append(dict(n=n, api="ovld", pool=rng.choice(pools), ops=rng.choice(H5)))
+        for _ in range(1200):
+            shapes.append(dict(n=n, api="ovld", pool=rng.choice(tpools), ops=rng.choice(H4 + H5)))
         for p in mt_pools:
             for h in Hm:
                 shapes.append(dict(n=n, api="mtm", pool=p, ops=h))
@@ -211,8 +235,9 @@ def main(tier, seed):
         PID, tier, seed, t0, results,
         bounds=dict(classes=3, pool="4 candidate methods (one duplicating another's signature and priority)", positions=1,
                     history_length="4-5 register/unregister operations (Ovld); 3-4 registrations (MultiTypeMap)",
+                    linked="a family in which the operations are applied to a parent that is never called itself and the probes go to a linkback copy of it",
                     probes="after each operation: one of K0 / K1 / object() / none (enumerated with the history, sampled); after the last: all three",
-                    bodies="return | call_next(x) | recurse(other)", priorities="unbounded integers (symbolic)",
+                    bodies="return | call_next(x) | recurse(other instance) | recurse(a class) next to a late type[K] method", priorities="unbounded integers (symbolic)",
                     hierarchy="every partial order (symbolic)"),
         rule="one state = one (pool, history) x class of (hierarchy, priorities); non-trivial = at least two probes",
         stubs=["SymMeta classes", "SymInt priorities"],
